@@ -77,7 +77,7 @@ Proof. destruct e as [[] [] [] []|[]| | |[] []|[]| |]; vm_compute; tauto. Qed.
 Definition a_stopped (a : ast) : bool := x_tun a || x_cr a.
 Definition is_pnone (p : pctag) : bool := match p with PNone => true | _ => false end.
 Definition succs (a : ast) : list ast :=
-  (if is_pnone (x_pc a) then [] else a_apply_act a) ++
+  a_apply_act a ++
   (if a_stopped a then []
    else if is_pnone (x_pc a) then a_crash a ++ flat_map (fun e => a_run_event e a) all_aev
    else flat_map (fun ok => a_resume (x_pc a) ok (sx_pc PNone a)) [true; false]).
@@ -166,8 +166,8 @@ Proof.
   intros H1 H2 H. unfold succs. rewrite H1, H2. apply in_or_app. right.
   apply in_flat_map. exists ok. split; [destruct ok; simpl; auto | exact H].
 Qed.
-Lemma succs_act a a' : is_pnone (x_pc a) = false -> In a' (a_apply_act a) -> In a' (succs a).
-Proof. intros H1 H. unfold succs. rewrite H1. apply in_or_app. left. exact H. Qed.
+Lemma succs_act a a' : In a' (a_apply_act a) -> In a' (succs a).
+Proof. intros H. unfold succs. apply in_or_app. left. exact H. Qed.
 
 Lemma Inv_event o s e : Inv s -> pc s = None -> stopped s = false -> Inv (fst (run_event o s e)).
 Proof.
@@ -190,10 +190,10 @@ Proof.
   exact R.
 Qed.
 
-Lemma Inv_act h a s : Inv s -> is_some (pc s) = true -> Inv (apply_act h a s).
+Lemma Inv_act h a s : Inv s -> Inv (apply_act h a s).
 Proof.
-  intros H Hpc. unfold Inv in *. apply (okb_succ (abs s)); [exact H|].
-  apply succs_act; [rewrite pnone_iff, Hpc; reflexivity | apply apply_act_s].
+  intros H. unfold Inv in *. apply (okb_succ (abs s)); [exact H|].
+  apply succs_act. apply apply_act_s.
 Qed.
 
 Lemma Inv_queue q s : Inv s -> Inv (upd_queue q s).
@@ -224,4 +224,21 @@ Proof.
   - destruct (pc s) eqn:Hpc; [apply Inv_queue, H | apply Inv_event; assumption].
   - destruct (pc s) eqn:Hpc; [apply D; reflexivity | apply Inv_crash; assumption].
   - destruct (pc s) eqn:Hpc; [apply D; reflexivity | apply Inv_crash; assumption].
+Qed.
+
+(* ---------- facts read off the table *)
+Definition P_ok (a : ast) : bool := x_ve a || m_ok (x_m a).
+Definition P_both (a : ast) : bool := x_ve a || x_vg a || (negb (m_r (x_m a) && m_er (x_m a)) && negb (m_er2 (x_m a))).
+Definition P_early (a : ast) : bool := x_ve a || negb (m_early (x_m a)) || x_rs a.
+Definition closed_ok (a : ast) : bool :=
+  (x_rqf a || sst_eqb (x_cs a) SErrored || sst_eqb (x_ss a) SErrored) && (negb (x_up a) || x_rsf a || x_ab a).
+Definition P_out (a : ast) : bool :=
+  negb (is_pnone (x_pc a)) || x_tun a || x_cr a || x_ve a || x_vg a || negb (m_qh (x_m a)) || negb (closed_ok a)
+  || (xorb (m_r (x_m a)) (m_er (x_m a)) && negb (x_live a)).
+Lemma table_facts : forallb (fun a => P_ok a && P_both a && P_early a && P_out a) ELEMS = true.
+Proof. vm_cast_no_check (eq_refl true). Qed.
+Lemma Inv_facts s : Inv s -> P_ok (abs s) = true /\ P_both (abs s) = true /\ P_early (abs s) = true /\ P_out (abs s) = true.
+Proof.
+  intros H. apply okb_In in H. pose proof table_facts as T. rewrite forallb_forall in T. specialize (T _ H).
+  repeat (apply andb_prop in T; destruct T as [T ?]). auto.
 Qed.
